@@ -74,11 +74,17 @@ package labels
 //@   requires b != nil && len(b.data) >= 24 && len(b.data) < 2147483648
 //@   modifies b.*
 //@   invariant loop 1: numSubBlockIndices == uint32(totalIndices) && totalIndices <= 65535 * uint64(rangeindex + 1)
+//@   invariant loop 2: forall k int :: {b.NumSBLabels[k]} 0 <= k && k <= rangeindex ==> b.NumSBLabels[k] <= 512
+//@   invariant loop 3: forall k int :: {b.SBIndices[k]} 0 <= k && k <= rangeindex ==> b.SBIndices[k] < numLabels
+//@   ensures err == nil && len(b.Labels) > 1 ==> (forall k int :: {b.SBIndices[k]} 0 <= k && k < len(b.SBIndices) ==> int(b.SBIndices[k]) < len(b.Labels))
+//@   ensures err == nil && len(b.Labels) > 1 ==> (forall k int :: {b.NumSBLabels[k]} 0 <= k && k < len(b.NumSBLabels) ==> b.NumSBLabels[k] <= 512)
 
 //@ func Block.UnmarshalBinary
 //@   prop C20
 //@   requires b != nil && len(data) < 2147483648
 //@   modifies b.*
+//@   ensures result == nil && len(b.Labels) > 1 ==> (forall k int :: {b.SBIndices[k]} 0 <= k && k < len(b.SBIndices) ==> int(b.SBIndices[k]) < len(b.Labels))
+//@   ensures result == nil && len(b.Labels) > 1 ==> (forall k int :: {b.NumSBLabels[k]} 0 <= k && k < len(b.NumSBLabels) ==> b.NumSBLabels[k] <= 512)
 
 //@ func Block.MergeLabels
 //@   prop C10
